@@ -579,26 +579,36 @@ theorem Inv.endSession {K : Crypto} {c : Conv} (h : Inv K c) (k : Keys) (x : Opt
 theorem Inv.smpWipe {K : Crypto} {c : Conv} (h : Inv K c) : Inv K { c with smp := {} } :=
   ⟨by simp [SmpWF], by simp [SmpNumWF], by simp [SmpWaitWF], h.enc, h.ake⟩
 
+/-- what `endSession` leaves: plaintext, no AKE context, and an SMP context satisfying the invariant -/
+theorem Inv.endSession' {K : Crypto} {c c' : Conv} (h : Inv K c) (hm : c'.msgState = .plainText)
+    (ha : c'.ake = none) (hs : c'.smp = c.smp) : Inv K c' := by
+  refine ⟨?_, ?_, ?_, fun he => ?_, fun a ha' => ?_⟩
+  · have := h.smpWF; unfold SmpWF at *; rw [hs]; exact this
+  · have := h.smpNum; unfold SmpNumWF at *; rw [hs]; exact this
+  · have := h.smpWait; unfold SmpWaitWF at *; rw [hs]; exact this
+  · rw [hm] at he; cases he
+  · rw [ha] at ha'; cases ha'
+
 theorem endSession_inv (K : Crypto) (s : MState) (h : Inv K s.conv) :
     wp (endSession K) (fun _ s' => Inv K s'.conv) NoP s := by
   unfold endSession
-  simp only [wp_bind, wp_getc, wp_ite']
-  refine ⟨fun _ => ?_, fun _ => ?_⟩
-  · simp only [smpWipe, wp_bind, wp_modc, wp_tryCatch]
+  simp only [wp_bind, wp_getc, smpWipe, wp_modc]
+  split
+  · simp only [wp_bind, wp_tryCatch]
     refine wp_mono _ _ _ _ _ _ (createSDM_inv K _ _ _ _ h.smpWipe) ?_ (fun _ hs => hs)
     rintro r s1 ⟨h1, -, -⟩
     cases r with
     | error e =>
       simp only [secEvent]
       wpx
-      all_goals exact h1.endSession _ _
+      all_goals (refine h1.endSession' rfl rfl ?_; first | rfl | (dsimp only; split <;> rfl))
     | ok x =>
       simp only [secEvent]
       wpx
-      all_goals exact h1.endSession _ _
-  · simp only [secEvent]
+      all_goals (refine h1.endSession' rfl rfl ?_; first | rfl | (dsimp only; split <;> rfl))
+  · try simp only [secEvent]
     wpx
-    all_goals exact h.endSession _ _
+    all_goals (refine h.smpWipe.endSession' rfl rfl ?_; first | rfl | (dsimp only; split <;> rfl))
 
 /-! ## the SMP API -/
 
@@ -669,6 +679,7 @@ theorem startAuthenticate_inv (K : Crypto) (question secret : Bytes) (s : MState
   simp only [wp_bind, wp_pure, id] at hrest1 hrest2
   unfold startAuthenticate
   simp only [wp_bind, wp_getc, wp_ite', wp_pure, wp_modc, wp_throw]
+  refine ⟨fun _ => h, fun _ => ?_⟩
   refine ⟨fun _ => h, fun _ => ?_⟩
   refine ⟨fun _ => ?_, fun _ => ?_⟩
   · first
